@@ -1220,7 +1220,7 @@ def vc_build_matching_path(prog, depth_given=False):
 
 
 # ============================================================================================ BaseMatcher.node_path_to_only_nodes
-def vc_only_nodes(prog, allow_jumps=False):
+def vc_only_nodes(prog, allow_jumps=False, walk=False):
     """BaseMatcher.node_path_to_only_nodes for a state sequence of ARBITRARY length whose elements are node labels or edges
     (pairs of labels), in any mix (C04: the nodes-only view of a walk is the walk's node sequence).  Foreach rule with the loop
     invariant `prev_state = preceding element`; per element, for an ARBITRARY last output node p:
@@ -1229,7 +1229,13 @@ def vc_only_nodes(prog, allow_jumps=False):
       * an edge attached to p adds exactly its other end (nothing for a self-loop), whichever way round the edge is stored,
       * an edge not attached to p: the documented exception without allow_jumps, both ends in order with allow_jumps,
       * prev_node is the last node of the output afterwards (the invariant the next element relies on),
-    and the output starts with the node / both ends of the first state."""
+    and the output starts with the node / both ends of the first state.
+
+    walk=True is the lemma behind the last sentence of C04: REQUIRES every edge state to be an edge of the map (adj) and every
+    consecutive pair of states to be the same state or a move the map offers without linked parallel edges (node -> adjacent
+    node, node -> edge leaving it, edge -> edge leaving its end node, edge -> its end node); ENSURES the view is computable (no
+    path raises) and every node added is adjacent to - and different from - the node before it in the output.  Additional loop
+    invariant: prev_node is the END node of the preceding state."""
     fv = prog.func(K.BASE, 'BaseMatcher.node_path_to_only_nodes')
     st = {}
     IntS, BoolS = z3.IntSort(), z3.BoolSort()
@@ -1254,9 +1260,25 @@ def vc_only_nodes(prog, allow_jumps=False):
             return z3.And(isn(j), x == sa(j))
         return z3.BoolVal(False)
 
+    def end_of(j):
+        j = to_z3(j)
+        return z3.If(isn(j), sa(j), sb(j))
+
+    def is_walk_step(k):
+        """element k+1 is the same state as element k or a move the map offers from it (no linked parallel edges, no jumps)"""
+        k = to_z3(k)
+        j = k + 1
+        same = z3.Or(z3.And(isn(j), isn(k), sa(j) == sa(k)), z3.And(z3.Not(isn(j)), z3.Not(isn(k)), sa(j) == sa(k), sb(j) == sb(k)))
+        move = z3.If(isn(j), z3.If(isn(k), adj(sa(k), sa(j)), sa(j) == sb(k)), sa(j) == end_of(k))
+        return z3.Or(same, move)
+
     def setup(ctx, it):
         st.clear()
         ctx.assume(n >= 1)
+        if walk:
+            q = z3.Int('q!w')
+            ctx.assume(z3.ForAll([q], z3.Implies(z3.And(0 <= q, q < n, z3.Not(isn(q))), adj(sa(q), sb(q)))))
+            ctx.assume(z3.ForAll([q], z3.Implies(z3.And(0 <= q, q + 1 < n), is_walk_step(q))))
         m = K.mk_matcher('BaseMatcher')
         sp = Obj('StatePath')
         st.update(m=m, sp=sp)
@@ -1282,10 +1304,18 @@ def vc_only_nodes(prog, allow_jumps=False):
         g.append(('output-starts-with-the-node-or-both-ends-of-the-first-state',
                   b2z(isinstance(nodes, list) and len(nodes) == len(first_nodes) and all(eq(x, y) is True for x, y in zip(nodes, first_nodes)))))
         g.append(('prev_node-starts-as-the-last-node-of-the-output', b2z(isinstance(nodes, list) and len(nodes) >= 1 and eq(pn, nodes[-1]) is True)))
+        if walk:
+            g.append(('walk:prev_node-starts-as-the-end-node-of-the-first-state', (pn == end_of(0)) if (z3.is_expr(pn) and pn.sort() == Label) else z3.BoolVal(False)))
+            okl = isinstance(nodes, list) and all(z3.is_expr(v) and v.sort() == Label for v in nodes)
+            g.append(('walk:first-nodes-are-adjacent', zand(*[adj(x, y) for x, y in zip(nodes, nodes[1:])]) if okl else z3.BoolVal(False)))
         return g
 
     def l_inv(it, env):
-        return [('prev_state-is-the-preceding-element', same_as(env.get('prev_state'), env['$idx']))]
+        g = [('prev_state-is-the-preceding-element', same_as(env.get('prev_state'), env['$idx']))]
+        if walk:
+            pn = env.get('prev_node')
+            g.append(('walk:prev_node-is-the-end-node-of-the-preceding-state', (pn == end_of(env['$idx'])) if (z3.is_expr(pn) and pn.sort() == Label) else z3.BoolVal(False)))
+        return g
 
     def l_havoc(it, env, pre):
         k = env['$idx']
@@ -1318,10 +1348,15 @@ def vc_only_nodes(prog, allow_jumps=False):
         pn = env.get('prev_node')
         last = vals[-1] if (okv and vals) else p
         ob('prev_node-is-the-last-node-of-the-output', z3.is_expr(pn) and pn.sort() == Label and (pn == last))
+        if walk and okv:
+            seq = [p] + vals
+            it.ctx.oblige('walk:every-added-node-is-adjacent-to-its-predecessor-in-the-output', b2z(zand(*[adj(x, y) for x, y in zip(seq, seq[1:])])), kind='post')
+            it.ctx.oblige('walk:no-immediate-repeats', b2z(zand(*[x != y for x, y in zip(seq, seq[1:])])), kind='post')
+            it.ctx.oblige('walk:no-jump-on-a-walk', b2z(len(vals) <= 1), kind='post')
 
     def raises_ok(ex, ctx):
         # the documented exception: an edge that is not attached to the last node, jumps not allowed
-        if allow_jumps or 'does not have as previous node' not in ex.msg or not hasattr(ctx, 'only_nodes_state'):
+        if walk or allow_jumps or 'does not have as previous node' not in ex.msg or not hasattr(ctx, 'only_nodes_state'):
             return False
         p, k = ctx.only_nodes_state
         j = k + 1
@@ -1339,5 +1374,5 @@ def vc_only_nodes(prog, allow_jumps=False):
                 ('only-nodes:exactly-one-loop-over-the-rest-of-the-sequence', b2z(len(loops_ast) == 1 and any(e.kind == 'loop-range' and eq(to_z3(e.lo), z3.IntVal(0)) is not False for e in ctx.events)))]
     hooks = {('index', 'StatePath'): h_index, ('slice', 'Obj'): h_slice, ('indexed', 'Obj'): h_indexed}
     rep = verify_function(prog, fv, setup, goals, models=dict(K.base_models()), hooks=hooks, loops=loops, raises_ok=raises_ok,
-                          name=f"BaseMatcher.node_path_to_only_nodes[{'jumps allowed' if allow_jumps else 'no jumps'}]")
+                          name=f"BaseMatcher.node_path_to_only_nodes[{'jumps allowed' if allow_jumps else 'no jumps'}{', walk' if walk else ''}]")
     return fv, rep
